@@ -82,6 +82,7 @@ type Exec struct {
 	boundObjs []types.Object
 	assuming int
 	loopEntry *State
+	loopHead  *State
 	mute int // >0: checks are assumed, not recorded (auxiliary executions)
 	rangeIdx []types.Object // hidden index variables of the enclosing range loops (innermost last)
 }
@@ -740,10 +741,11 @@ type writes struct {
 	fams  map[string]bool
 	all   bool
 	calls map[string]bool // ghost call counters (interface methods with contracts) possibly advanced
+	ghosts map[string]bool // other ghost values ([]byte snapshots) possibly replaced
 }
 
 func newWrites() *writes {
-	return &writes{vars: map[types.Object]bool{}, globs: map[string]types.Type{}, fams: map[string]bool{}, calls: map[string]bool{}}
+	return &writes{vars: map[types.Object]bool{}, globs: map[string]types.Type{}, fams: map[string]bool{}, calls: map[string]bool{}, ghosts: map[string]bool{}}
 }
 
 func (ex *Exec) havocWrites(w *writes, st *State, onlyOuter bool) {
@@ -766,6 +768,11 @@ func (ex *Exec) havocWrites(w *writes, st *State, onlyOuter bool) {
 		// this ghost call counter may have advanced
 		st.ghost["calls:"+name] = scalarV(types.Typ[types.Int], freshVar("ghost|calls:"+name, sortInt))
 	}
+	for g := range w.ghosts {
+		nv := freshValue("ghost|"+g, types.NewSlice(types.Typ[types.Byte]))
+		st.assumeValid(nv)
+		st.ghost[g] = nv
+	}
 	if len(w.fams) > 0 {
 		// allocation may have happened
 		na := freshVar("alloc", sortMath)
@@ -787,6 +794,19 @@ func (ex *Exec) loopClauses(ord string) (invs []*Clause, dec *Clause) {
 		}
 	}
 	return
+}
+
+func (fi *FuncInfo) iterEnsures(ord string, f *Frame) []*Clause {
+	if fi == nil || fi.Con == nil || f.lit {
+		return nil
+	}
+	var out []*Clause
+	for _, c := range fi.Con.Loops[ord] {
+		if c.Kind == "iterensures" {
+			out = append(out, c)
+		}
+	}
+	return out
 }
 
 func (ex *Exec) nextLoopOrd() string {
@@ -901,6 +921,7 @@ func (ex *Exec) runLoop(n ast.Node, label string, st *State, w *writes, cond fun
 	}
 	base := len(st.pc)
 	head := st.clone()
+	headSnap := st.clone()
 	lc := &loopCtx{label: label}
 	f.loops = append(f.loops, lc)
 	f.loopOrd = append(f.loopOrd, 0)
@@ -930,6 +951,17 @@ func (ex *Exec) runLoop(n ast.Node, label string, st *State, w *writes, cond fun
 		}
 		for i, g := range evalInvs(e) {
 			ex.check(e, g, "loop-preserve", n, fmt.Sprintf("%s:inv%d", site, i))
+		}
+		for i, c := range f.fn.iterEnsures(ord, f) {
+			savedH, savedE := ex.loopHead, ex.loopEntry
+			ex.loopHead, ex.loopEntry = headSnap, entrySt
+			g := ex.evalClause(c, e, f.oldSt, nil)
+			ex.loopHead, ex.loopEntry = savedH, savedE
+			lbl := c.Label
+			if lbl == "" {
+				lbl = fmt.Sprint(i)
+			}
+			ex.check(e, g, "iteration", n, fmt.Sprintf("%s:%s", site, lbl))
 		}
 		if dec != nil {
 			v1 := ex.evalClauseVal(dec, e, f.oldSt).scalar()
@@ -1354,6 +1386,15 @@ func (ex *Exec) scanCall(call *ast.CallExpr, info *types.Info, w *writes, depth 
 		return
 	}
 	key := funcKey(fn)
+	if cn := counterNameOf(fn); countedCalls[cn] {
+		w.calls[cn] = true
+	}
+	switch fn.FullName() {
+	case "(*net.UDPConn).ReadMsgUDPAddrPort":
+		w.ghosts["net.lastpkt"] = true
+	case "(*net.UDPConn).WriteToUDPAddrPort":
+		w.ghosts["net.lastsent"] = true
+	}
 	if ifi := ex.vc.ifaceFuncs[key]; ifi != nil {
 		w.calls[ifaceCounterName(ifi)] = true
 		for _, m := range ifi.Con.Modifies {
@@ -1379,6 +1420,9 @@ func (ex *Exec) scanCall(call *ast.CallExpr, info *types.Info, w *writes, depth 
 			}
 			for c := range sub.calls {
 				w.calls[c] = true
+			}
+			for g := range sub.ghosts {
+				w.ghosts[g] = true
 			}
 			// callee locals are irrelevant; pointer-receiver/pointer params targeting caller locals:
 			for _, a := range call.Args {
